@@ -101,7 +101,29 @@ def names_module(ch):
     elif mode == 3:
         same = exotic_name(ch)
         m.func_names = {i: same for i in range(nimp + nf)}                              # duplicates, imports named too
+    add_name_subsections(ch, m, nimp + nf)
     return m
+
+
+def add_name_subsections(ch, m, nfuncs):
+    """the other subsections toolchains write into the name section: module name (0), local names (2), and the extended ones
+    (labels 3, types 4, tables 5, memories 6, globals 7) - all of them are to be skipped by a reader that wants function names"""
+    if ch.below(2):
+        return
+    enc = wasm.Encoder()
+    subs = []
+    if ch.below(2):
+        subs.append((0, enc.name(exotic_name(ch) if ch.below(2) else b'module')))
+    if ch.below(2):
+        funcs = []
+        for fi in sorted(set(ch.below(max(nfuncs, 1)) for _ in range(1 + ch.below(3)))):
+            locs = enc.vec([enc.u(li) + enc.name(b'l%d' % li if ch.below(2) else exotic_name(ch)) for li in range(ch.below(4))])
+            funcs.append(enc.u(fi) + locs)
+        subs.append((2, enc.vec(funcs)))
+    if ch.below(3) == 0:
+        sid = ch.pick((3, 4, 5, 6, 7, 9))
+        subs.append((sid, enc.vec([enc.u(0) + enc.name(b'x')]) if ch.below(2) else b''))
+    m.name_subsections = subs or None
 
 
 def stress_module(ch):
@@ -180,6 +202,7 @@ def any_module(ch, allow_stress=True):
         if ch.below(3) == 0 and m.func_names is None:
             ni = m.n_imported_funcs()
             m.func_names = {ni + i: b'fn_%d' % i for i in range(len(m.funcs)) if ch.below(4)}
+            add_name_subsections(ch, m, ni + len(m.funcs))
         return m, wasm.encode(m), mk
     if k < 7:
         name, b = ch.pick(spec_modules())
